@@ -62,7 +62,8 @@ type simConn struct {
 	closeErr  error
 	stallNext bool
 	halfDead  bool
-	sinceRdl  int // bytes handed to the client since it last set a read deadline
+	wblock    bool // the peer stopped reading
+	sinceRdl  int  // bytes handed to the client since it last set a read deadline
 }
 
 func (c *simConn) String() string { return "c" + itoa(c.id) }
